@@ -34,6 +34,10 @@ RULE = ("per transport (mrp, companion, http, rtsp): every interleaving of 2 req
         "decode_protobufs, AirPlayMrpConnection) with 1..3 messages per data-stream frame; per transport 150 (thorough: "
         "1500) PAIRS of protocol objects alive at once with the same identifiers in flight, their random scripts "
         "interleaved at random, each judged on its own; "
+        "the segmentation of the device's message stream varies per script on every transport: one message per "
+        "read, as many consecutive messages as possible in one read, or 1..3 at random (HTTP/RTSP: the read "
+        "concatenated byte-wise and additionally cut into segments of 1 / 7 / 40 bytes; MRP/Companion: consecutive "
+        "hand-overs without a loop run; tunnel: one data-stream frame); 2-request HTTP/RTSP scripts run both ways; "
         "MRP listener sets vary per script (the unfiltered witness on every type plus up to 5 subscriptions: several "
         "listeners per type, the same function / bound method / coroutine subscribed repeatedly for one type with "
         "disjoint filters, the same callable on several types); plus 400 (thorough: 4000) bare MessageDispatcher cases "
@@ -52,6 +56,9 @@ ASSUMPTIONS = [
     "answer; Companion: only a response frame (`_t`=3) can answer, an event or device request never does",
     "plain HTTP: the device answers the requests it received in order, each once; RTSP: only 2xx responses",
     "stop()/close() racing with waiters is outside the quantifier",
+    "two messages for one identifier are never put into ONE read (below event granularity); MRP and Companion reads "
+    "are k consecutive message_received / frame_received calls (what their connection classes do for one "
+    "data_received), the byte framing below is C02's",
     "tunnel: two messages for one identifier are never put into ONE data-stream frame (below event granularity); "
     "HAP encryption of the data channel is bypassed (frames enter at channel.buffer / leave at channel.send)",
     "Companion responses that answer no outstanding request have no subscribers (only events can be listened "
@@ -65,7 +72,7 @@ TRUSTED = [
 ]
 
 PROPS_FILES = ["PyatvModel/Props/C03.lean", "PyatvModel/Props/C03Rtsp.lean", "PyatvModel/Props/C03Disp.lean",
-               "PyatvModel/Props/C03Pair.lean"]
+               "PyatvModel/Props/C03Pair.lean", "PyatvModel/Props/C03Reads.lean"]
 KNOWN_SIG = "http-fifo:late-response-after-timeout"
 HTTP_WITNESS = "s,t0,s,rn:0"           # = PyatvModel.Props.C03.C03_http_counterexample
 TRANSPORTS = ["mrp", "companion", "http", "rtsp", "tunnel"]
@@ -154,6 +161,22 @@ def script_keys(base, events):
     return keys
 
 
+def reads_spec(transport, evs, rng, mode=None):
+    """`#sizes#chunk`: how many consecutive messages of the device arrive in ONE read (tunnel: in one
+    data-stream frame): one per read, as many as possible, or 1..3 at random; byte transports
+    (HTTP, RTSP): the read additionally arrives in segments of `chunk` bytes"""
+    n = sum(1 for e in evs if e[0] in MSG)
+    mode = mode or rng.choice(["one", "one", "all", "rand", "rand"])
+    if mode == "one" or n < 2:
+        sizes = ""
+    elif mode == "all":
+        sizes = ",".join(["9"] * n)
+    else:
+        sizes = ",".join(str(rng.randint(1, 3)) for _ in range(n))
+    chunk = rng.choice([0, 0, 0, 1, 7, 40]) if transport in ("http", "rtsp") else 0
+    return "#%s#%s" % (sizes, chunk or "")
+
+
 def frame_plan(events, sizes):
     """tunnel: which consecutive message events travel in one data-stream frame.  `sizes` = wanted
     frame sizes in order; a frame also ends at any other event and before a message carrying an
@@ -182,18 +205,39 @@ def frame_plan(events, sizes):
     return last
 
 
-def regroup(events, steps, last):
-    """observations of a frame are made when its last message was handed over: give every
-    delivery / listener call back to the message (payload) it is about"""
+def regroup(events, steps, last, by_payload=True):
+    """observations of a read are made when its last message was handed over (or, with another
+    connection running in the same loop, somewhere in between): collect them per read and give
+    every delivery / listener call back to the message (payload) it is about.  RTSP may return a
+    response later than it arrived: there everything of a read stays at its last message."""
     steps = [list(s) for s in steps]
+    groups = {}
     for i, l in enumerate(last):
-        if l is None or l == i or l >= len(steps):
+        if l is not None and l < len(steps) and i < len(steps):
+            groups.setdefault(l, []).append(i)
+    for l, members in groups.items():
+        if len(members) < 2:
             continue
-        v = events[i][2]
-        mine = [t for t in steps[l] if t[0] in ("dlv", "dsp") and t[3] == v]
-        steps[l] = [t for t in steps[l] if t not in mine]
-        steps[i] += mine
+        pool = [t for i in members for t in steps[i]]
+        for i in members:
+            steps[i] = []
+        owner = {events[i][2]: i for i in members}
+        for t in pool:
+            if by_payload and t[0] in ("dlv", "dsp") and t[3] in owner:
+                steps[owner[t[3]]].append(t)
+            else:
+                steps[l].append(t)
     return steps
+
+
+def merge_model(model, last):
+    """RTSP: the model's outputs of the events of one read, taken together"""
+    model = [list(s) for s in model]
+    for i, l in enumerate(last):
+        if l is not None and l != i and l < len(model) and i < len(model):
+            model[l] = sorted(model[l] + model[i])
+            model[i] = []
+    return model
 
 
 def resp(transport, base, i):
@@ -845,11 +889,14 @@ class HttpAdapter:
     def burn(self):
         pass
 
-    def recv(self, kind, k, v):
+    def encode(self, kind, k, v):
         if kind != "r":
-            return              # HTTP / RTSP carry responses only
+            return b""          # HTTP / RTSP carry responses only
         body = b"resp-%d" % v
-        self.conn.data_received(b"HTTP/1.1 200 OK\r\nContent-Length: %d\r\n\r\n" % len(body) + body)
+        return b"HTTP/1.1 200 OK\r\nContent-Length: %d\r\n\r\n" % len(body) + body
+
+    def feed(self, data):
+        self.conn.data_received(data)
 
 
 class RtspAdapter:
@@ -922,14 +969,17 @@ class RtspAdapter:
     def burn(self):
         pass
 
-    def recv(self, kind, k, v):
+    def encode(self, kind, k, v):
         if kind != "r":
-            return              # HTTP / RTSP carry responses only
+            return b""          # HTTP / RTSP carry responses only
         body = b"resp-%d" % v
         hdr = b"RTSP/1.0 200 OK\r\n"
         if k is not None:
             hdr += b"CSeq: %d\r\n" % k
-        self.conn.data_received(hdr + b"Content-Length: %d\r\n\r\n" % len(body) + body)
+        return hdr + b"Content-Length: %d\r\n\r\n" % len(body) + body
+
+    def feed(self, data):
+        self.conn.data_received(data)
 
 
 # ------------------------------------------------------------------------------ execution
@@ -966,7 +1016,10 @@ class Sess:
             deadlines[FAILED + i] = t0 + 1.0e7
         obs.begin()
         orig_subs = subs
-        subs, _, frames = (subs or "").partition("#")
+        subs, _, rest = (subs or "").partition("#")
+        frames, _, chunk = rest.partition("#")
+        self.chunk = int(chunk) if chunk else 0
+        self.pending = b""
         if transport == "mrp":
             ad = MrpAdapter(obs, base, subs or DEFAULT_SUBS)
         elif transport == "tunnel":
@@ -977,7 +1030,7 @@ class Sess:
             ad = HttpAdapter(obs, base)
         else:
             ad = RtspAdapter(obs, base, deadlines)
-        if orig_subs and hasattr(ad, "subs_text"):
+        if orig_subs:
             ad.subs_text = orig_subs
         self.ad = ad
         obs.steps.clear()
@@ -1025,14 +1078,26 @@ class Sess:
                 ad.burn()
             elif e[0] in MSG and self.transport == "tunnel":
                 ad.recv(e[0], e[1], e[2], last=self.plan[ei] == ei)
+            elif e[0] in MSG and hasattr(ad, "encode"):
+                # byte transports: the responses of one read are concatenated; the read may
+                # itself arrive in several segments of `chunk` bytes
+                self.pending += ad.encode(e[0], e[1], e[2])
+                if self.plan[ei] == ei:
+                    data, self.pending = self.pending, b""
+                    size = self.chunk or len(data) or 1
+                    for i in range(0, len(data), size):
+                        ad.feed(data[i:i + size])
             elif e[0] in MSG:
-                ad.recv(e[0], e[1], e[2])
+                ad.recv(e[0], e[1], e[2])      # MRP / Companion: the connection hands the frames
+                #                                of one read over in one go (no loop run between)
             else:
                 d = self.tdead[self.ti]
                 self.ti += 1
                 await asyncio.sleep(d + 0.25 - self.loop.time())
         except Exception as ex:
             obs.add("raised", type(ex).__name__)
+        if e[0] in MSG and self.plan[ei] != ei:
+            return                     # more messages of the same read follow
         await settle()
         ad.fail_next = 0
 
@@ -1047,9 +1112,9 @@ class Sess:
             self.ad.restore()
 
     def result(self):
-        steps = self.obs.steps[:len(self.events)]
-        if self.transport == "tunnel":
-            steps = regroup(self.events, steps, self.plan)
+        steps = regroup(self.events, self.obs.steps[:len(self.events)], self.plan,
+                        by_payload=self.transport != "rtsp")
+        self.ad.plan = self.plan
         return steps, self.ad
 
 
@@ -1285,17 +1350,16 @@ def gen_cases(ctx):
         base = 0 if transport != "companion" else rng.fork("base", transport).randint(0, 65536)
         rs = rng.fork("subs", transport)
 
-        def subs(evs=()):
-            # MRP: the listener set varies from script to script; tunnel: 1..3 messages per frame
-            if proto(transport) != "mrp":
-                return None
-            text = random_subs(rs)
-            if transport == "tunnel":
-                text += "#" + ",".join(str(rs.randint(1, 3)) for e in evs if e[0] in MSG)
-            return text.rstrip("#")
+        def subs(evs=(), mode=None):
+            # MRP: the listener set varies from script to script; every transport: how the
+            # device's messages are cut into reads
+            text = random_subs(rs) if proto(transport) == "mrp" else ""
+            return (text + reads_spec(transport, evs, rs, mode)).rstrip("#") or None
 
         for evs in (interleavings2(transport, base) if transport != "tunnel" or ctx.thorough else []):
             cases.append((transport, base, evs, subs(evs)))
+            if transport in ("http", "rtsp") and sum(1 for e in evs if e[0] in MSG) > 1:
+                cases.append((transport, base, evs, subs(evs, "all")))
         for n in ([3, 4] if ctx.thorough else [3]):
             for evs in structured(transport, base, n, rng.fork("stagger", transport, n)):
                 cases.append((transport, base, evs, subs(evs)))
@@ -1313,8 +1377,8 @@ def gen_cases(ctx):
             eb = list(ea) if rp.chance(0.3) else random_script(transport, b, rp, nmax=3, maxlen=8)
             order = ["A"] * len(ea) + ["B"] * len(eb)
             rp.shuffle(order)
-            sa = random_subs(rp) if proto(transport) == "mrp" else None
-            sb = random_subs(rp) if proto(transport) == "mrp" else None
+            sa = ((random_subs(rp) if proto(transport) == "mrp" else "") + reads_spec(transport, ea, rp)).rstrip("#") or None
+            sb = ((random_subs(rp) if proto(transport) == "mrp" else "") + reads_spec(transport, eb, rp)).rstrip("#") or None
             cases.append(("pair", b, {"t": transport, "a": ea, "b": eb, "order": "".join(order)}, (sa, sb)))
     # the dispatcher alone: subscription sets x messages
     r3 = rng.fork("disp")
@@ -1404,6 +1468,8 @@ def run(ctx, only=None):
         else:
             impl = [canon_step(ad, e, s) for e, s in zip(evs, steps)]
         model = canon_model(ans, transport)
+        if transport == "rtsp" and ad is not None:
+            model = merge_model(model, ad.plan)
         for s in impl:
             for t in s:
                 ctx.note("obs:" + t.split(":")[0].split("#")[0])
@@ -1451,7 +1517,7 @@ def run(ctx, only=None):
         transport, base, evs, steps, ad = res
         script = show(evs)
         case = {"transport": transport, "base": base, "script": script}
-        if proto(transport) == "mrp" and ad is not None:
+        if ad is not None and getattr(ad, "subs_text", None):
             case["subs"] = ad.subs_text
         nreq = sum(1 for e in evs if e[0] in SENDS)
         ctx.note("transport:" + transport)
